@@ -339,3 +339,133 @@ SPECS["C12"] = v2spec(
     shards={"quick": 4, "thorough": 8}, workers={"quick": 1, "thorough": 1},
     timeout={"quick": 1500, "thorough": 3 * 3600},
 )
+
+
+V1_ASSUME = [
+    "harness binaries are built from /repo's working tree with `go test -c -tags verif -overlay`; the overlay only ADDS zz_verif_*_test.go files to the package",
+    "verdicts are 'held on the executions observed', not proofs",
+]
+
+
+def v1spec(test, pkgdir, harness, **kw):
+    d = dict(module=".", pkgdir=pkgdir, harness=harness, test=test, cwd=".", run=run_generic, out=harness[0].replace("/", "_"),
+             shards={"quick": 16, "thorough": 16}, workers={"quick": 1, "thorough": 1},
+             assumptions=list(V1_ASSUME), level="exploration")
+    d.update(kw)
+    return d
+
+
+SPECS["C13"] = v1spec(
+    "TestVerifC13", "stringclassifier", ["strcls"],
+    title="v1 string classifier finds verbatim occurrences exactly; any value is accepted",
+    rule=("case = (set of 1-8 known values of 1-90 tokens over vocabularies of 3-2000 words, flavoured with punctuation / regexp metacharacters / Unicode / invalid UTF-8; normaliser list in "
+          "{none, FlattenWhitespace, ToLower+FlattenWhitespace}; threshold in {0.5,0.8,0.9,0.95,1.0}; one value that occurs inside no other is planted into filler from a disjoint vocabulary at the start, "
+          "middle, end, twice, or glued to neighbouring letters). Oracle: AddValue never panics; every returned match has Confidence in (0,1] and Offset/Extent inside the normalised unknown; each planted copy is "
+          "reported as {value, 1.0, Offset, Extent} with the byte offset known from the construction (cross-checked with strings.Index on the normalised string); NearestMatch(value) = {value, 1.0}. "
+          "One worker per child process: MultipleMatch computes in goroutines, so a panic kills the process and the driver attributes it to the case in flight. "
+          "Non-trivial = a planted value was searched; distinct = distinct (unknown, threshold, normalisers)."),
+    floor_evals={"quick": 2500, "thorough": 80000},
+    floor_nontrivial={"quick": 1200, "thorough": 40000},
+    timeout={"quick": 1500, "thorough": 3 * 3600},
+)
+
+
+def build_judge(scratch):
+    import subprocess
+    out = os.path.join(scratch, "judge")
+    p = subprocess.run(["go", "build", "-o", out, "."], cwd=os.path.join(driver.VERIF, "judge"), env=driver.goenv(),
+                       stdout=subprocess.PIPE, stderr=subprocess.STDOUT, text=True)
+    if p.returncode != 0:
+        raise driver.HarnessError("cannot build /verif/judge (porcupine): " + p.stdout[-2000:])
+    return out
+
+
+def run_c14(ctx, spec):
+    import json
+    import subprocess
+    tier = ctx["tier"]
+    scratch = ctx["scratch"]
+    race_bin, bt1 = driver.build_test(scratch, ".", "stringclassifier", ["strcls"], race=True, out="strcls")
+    judge = build_judge(scratch)
+    cwd = os.path.join(driver.REPO, "stringclassifier")
+    repeats = {"quick": 3, "thorough": 10}[tier]
+    only = ctx.get("only")
+    ctx["gomaxprocs"] = driver.NCPU
+    race_log = os.path.join(scratch, "racelog")
+    histdir = os.path.join(scratch, "hist")
+    os.makedirs(histdir, exist_ok=True)
+    env = {"GORACE": "halt_on_error=0 log_path=%s" % race_log, "VERIF_WORKERS": "1", "VERIF_CASE_TIMEOUT": "600", "VERIF_HISTDIR": histdir}
+    if only is not None:
+        env["VERIF_ONLY"] = str(only)
+        repeats = 1
+    ctx["tag"] = "C14sc"
+    ev1, cr1, sg1 = driver.run_sharded(ctx, race_bin, "TestVerifC14", cwd, repeats, 3600, extra_env=env, parallel=1)
+    events, crashes, sigs = list(ev1), list(cr1), set(sg1)
+    cov = {"race_build_s": round(bt1, 1), "race_processes": repeats}
+    viol = []
+    samples = []
+    # the root-package part (licenseclassifier.License from an archive), if available
+    extra = spec.get("root_part")
+    ndones = repeats
+    if extra:
+        r = extra(ctx, race_log, only)
+        events += r["events"]
+        crashes += r["crashes"]
+        sigs |= r["sigs"]
+        ndones += r["dones"]
+        cov.update(r.get("cov", {}))
+    # race reports
+    nrep, distinct = parse_race_logs(race_log + ".*", "licenseclassifier")
+    for d in distinct:
+        kind = "data-race" if d["repo_related"] else "data-race-in-harness"
+        viol.append({"ev": "case", "verdict": "violation", "kind": kind, "gen": "race-detector", "idx": None,
+                     "detail": "%d report(s); outermost frames in the module: %s\n%s" % (d["count"], d["outer"], d["example"])})
+    cov.update({"race_reports": nrep, "distinct_race_reports": len(distinct)})
+    # histories -> porcupine
+    files = sorted(glob.glob(os.path.join(histdir, "*.json")))
+    verdicts = {"ok": 0, "illegal": 0, "unknown": 0, "error": 0}
+    total_ops = 0
+    maxclients = 0
+    for i in range(0, len(files), 50):
+        p = subprocess.run([judge] + files[i:i + 50], stdout=subprocess.PIPE, stderr=subprocess.PIPE, text=True, timeout=7200)
+        for line in p.stdout.splitlines():
+            try:
+                v = json.loads(line)
+            except Exception:
+                continue
+            verdicts[v.get("verdict", "error")] = verdicts.get(v.get("verdict", "error"), 0) + 1
+            total_ops += v.get("ops", 0)
+            maxclients = max(maxclients, v.get("clients", 0))
+            if v.get("verdict") == "illegal":
+                hist = json.load(open(v["file"]))
+                viol.append({"ev": "case", "verdict": "violation", "kind": "history-not-linearizable", "gen": "history", "idx": v.get("idx"),
+                             "detail": "history %s (%d ops, %d clients, %d keys) is not linearizable w.r.t. the per-key model (porcupine). Offending key sub-history:\n%s" % (
+                                 v.get("id"), v.get("ops"), v.get("clients"), v.get("keys"), v.get("detail", "")[:3000]),
+                             "history": hist})
+            elif v.get("verdict") in ("unknown", "error"):
+                events.append({"ev": "case", "verdict": "inconclusive", "gen": "history", "idx": v.get("idx"), "detail": "porcupine: %s %s" % (v.get("verdict"), v.get("detail", ""))})
+            elif len(samples) < 2:
+                hist = json.load(open(v["file"]))
+                samples.append({"history": v.get("id"), "clients": v.get("clients"), "keys": v.get("keys"), "porcupine": "ok", "first_ops": hist["ops"][:6]})
+    cov.update({"histories_checked": len(files), "porcupine_verdicts": verdicts, "history_ops": total_ops, "max_clients": maxclients})
+    if only is None and len(files) < {"quick": 100, "thorough": 2000}[tier]:
+        viol.append({"ev": "case", "verdict": "violation", "kind": "harness", "gen": "history", "detail": "only %d histories recorded" % len(files)})
+    ctx["expected_dones"] = ndones
+    ctx["tag"] = "C14"
+    return driver.summarize(ctx, events, crashes, sigs, spec, extra_cov=cov, extra_violations=viol, extra_samples=samples)
+
+
+SPECS["C14"] = dict(
+    run=run_c14, test="TestVerifC14", engine="go-race-detector", level="exploration",
+    module=".", pkgdir="stringclassifier", harness=["strcls"], builds=[dict(module=".", pkgdir="stringclassifier", harness=["strcls"], race=True)],
+    title="v1 classifiers are safe for concurrent use",
+    technique="Go race detector + recorded call histories checked for linearizability with porcupine + differential for read-only storms",
+    rule=("history = 2-16 client goroutines issuing ~200 AddValue/MultipleMatch/NearestMatch calls on 2-5 keys of one fresh stringclassifier.Classifier (lazy search sets); unknown string s_k contains value v_k only, "
+          "so MultipleMatch(s_k)/NearestMatch(v_k) report k iff AddValue(k) has taken effect and a second AddValue(k) must fail. Every call is recorded {client, op, key, call, return, result} from one monotonic clock and the "
+          "history is checked offline with porcupine v1.3.0 against a per-key boolean model (partitioned by key, 60 s cap; Unknown = inconclusive). Every fifth case is a read-only storm on a classifier whose search sets "
+          "are still lazy, compared with sequential results. All of it runs in -race binaries (3/10 separate processes, GORACE log parsed, reports de-duplicated by outermost module frames). "
+          "Non-trivial = every history/storm; distinct = (process, case)."),
+    assumptions=list(V1_ASSUME) + ["porcupine's verdict is relative to the recorded call/return timestamps (one monotonic clock per process)"],
+    floor_evals={"quick": 100, "thorough": 2000},
+    floor_nontrivial={"quick": 100, "thorough": 2000},
+)
